@@ -37,6 +37,9 @@ def programs(tick, unit, kind='futures'):
     P.append(('long-2leg-wide-keep-entry', dict(base, side='long', enter={'when': 'flat', 'legs': [[1, -1], [1, -3]]},
                                                  on_open={'sl': 'all', 'tp': 'all', 'sl_d': 4, 'tp_d': 2},
                                                  on_increased={'sl': 'all', 'tp': 'all', 'sl_d': 4, 'tp_d': 2}, cancel_entry=False)))
+    # exits declared once and never re-declared: a later entry fill leaves every other resting order in place
+    P.append(('long-2leg-static-exits', dict(base, side='long', enter={'when': 'flat', 'legs': [[1, -1], [1, -2]]},
+                                              on_open={'sl': [[2, 4]], 'tp': [[1, 1]]} if kind == 'futures' else {'tp': [[1, 1]]}, cancel_entry=False)))
     P.append(('long-market-breakeven', dict(base, side='long', enter={'when': 'flat', 'legs': [[2, 0]]},
                                              on_open={'sl': [[2, 2]], 'tp': [[1, 1], [1, 3]]},
                                              on_reduced={'sl': 'breakeven'}, cancel_entry=True)))
